@@ -35,6 +35,7 @@ inductive Val where
   | str (s : List Char)
   | strs (l : List (List Char))
   | other (repr : String)           -- any value the model does not look into
+  | verifyMode (repr : String)      -- `ssl.VerifyMode(<repr>)`: what the write-only `cert_reqs` setter stores under `verify_mode`
 deriving Repr, DecidableEq
 
 /-- attributes that are read-only properties: `setattr` raises AttributeError, which `from_mapping` swallows -/
@@ -47,14 +48,38 @@ def setattrNorm (key : String) (v : Val) : Option (String × Val) :=
     some ("_" ++ key, match v with | .str s => .strs [s] | v => v)
   else if key = "root_path" then
     some ("_root_path", match v with | .str s => .str (rstripSlash s) | v => v)
+  else if key = "cert_reqs" then
+    -- `cert_reqs = property(None, set_cert_reqs)`: `self.verify_mode = VerifyMode(value)` (a member stays itself)
+    some ("verify_mode", match v with | .other r => .verifyMode r | v => v)
   else some (key, v)
 
 abbrev Store := List (String × Val)      -- instance `__dict__`, last write wins
 
 def Store.set (st : Store) (k : String) (v : Val) : Store := (k, v) :: st.filter (·.1 != k)
 
-def fromMapping (kvs : List (String × Val)) : Store :=
+/-- one statement in front of the `setattr` of `from_mapping`'s loop: does it let the key through? -/
+def mapClauseKeeps : ConfigSites.MapClause → String → Bool
+  | .readable, k => ConfigSites.readableKeys.contains k       -- `if not hasattr(config, key): continue`
+  | .unrecognised, _ => true                                  -- a loop the extractor could not read (the tie is reported broken)
+
+/-- the guards of the current source's loop (*extracted*; none in the pinned source): is the key handed to `setattr`? -/
+def mapKeeps (k : String) : Bool := ConfigSites.fromMappingGuards.all (fun c => mapClauseKeeps c k)
+
+/-- the loop without guards: every key is handed to `setattr`, only `AttributeError` (a read-only property) is swallowed -/
+def fromMappingU (kvs : List (String × Val)) : Store :=
   kvs.foldl (fun st (k, v) => match setattrNorm k v with | some (k', v') => st.set k' v' | none => st) []
+
+/-- `Config.from_mapping` as the current source has it -/
+def fromMapping (kvs : List (String × Val)) : Store := fromMappingU (kvs.filter (fun kv => mapKeeps kv.1))
+
+/-- when the loop has no guard that skips a key, `from_mapping` hands every key to `setattr` (the hypothesis is discharged
+    against the extracted guards in `HC/Props/C19.lean`: `from_mapping_guard_spec`) -/
+theorem fromMapping_eq (hg : ∀ k, mapKeeps k = true) (kvs : List (String × Val)) : fromMapping kvs = fromMappingU kvs := by
+  unfold fromMapping
+  congr 1
+  rw [List.filter_eq_self]
+  intro kv _
+  exact hg kv.1
 
 /-- what kind of Python object an attribute of the configuration object / module holds, as far as `from_object`'s filter
     can tell: a module (`import os` in a configuration file), a class (`logger_class`), a function, or anything else -/
@@ -113,7 +138,9 @@ def parseInet (s : List Char) : Bind :=
     else match rsplitColon b with
       | some (h, p) => (match parseNat p with | some n => (h, n) | none => (b, 8000))
       | none => (b, 8000)
-  .inet (hp.1.contains ':') hp.1 hp.2
+  -- `socket.AF_INET6 if <test> else socket.AF_INET`: the test is the *extracted* expression over the bind string as given,
+  -- the bind string without brackets and the parsed host
+  .inet (ConfigSites.inetIsV6 s b hp.1) hp.1 hp.2
 
 def parseBind (s : List Char) : Bind :=
   if "unix:".toList.isPrefixOf s then .unix (s.drop 5)
